@@ -3,6 +3,14 @@ HOOK_COMMITS = []   # no source hooks needed so far
 FIX_COMMITS = ["12c75c5 fix: make_patch op order (C13)", "8c66073 fix: resolved pointers escaped (C13)", "4756b94 fix: huawei multi_all unchanged lines (C11)", "81e31d8 fix: implicit default block with its defaults (C17)", "5bfc12a fix: order_config word boundary (C08)", "943f14e fix: patch sort key (C08)", "1bcbbe1 fix: rewrite logic sends the new line ... (C01)", "28efb2a fix: file mode builds the patch from the complete diff (C16)", "c62ee59 fix: pool parent loop leaves only when the done queue is drained (C12)"]
 PENDING = {}
 CLAIMS = {
+    "C20": {
+        "technique": "TLA+ model of a worker process with caches serving a job history (History.tla) with the code's protections as switches; TLC MC incl. regression instances; TLC-enumerated job sequences executed in one forked process vs each job in a fresh process; TLC trace judge",
+        "text": "TLC checks observational determinism over all job sequences <=3 of an abstract menu with the protections on (provider cache keyed by hardware, per-call copies of rule attributes) and shows each "
+                "protection necessary (two regression instances must fail). All sequences of the driver's job menu up to the TLC bound (2, thorough 3) plus seeded longer ones run in ONE forked process each; "
+                "every position is compared with the job's result alone in a fresh fork; frame conditions (old, new, compiled rulebook snapshots) and a repeated call are judged too.",
+        "note": "Job menu: corpus samples of 7 vendors, three Huawei hardware models over one config, shared compiled ACL with overlapping rules, rule-mutating logic (default_instead_undo), unknown rows. "
+                "A fork of the pristine driver process counts as a fresh process.",
+    },
     "C19": {
         "technique": "TLA+ file-deploy semantics (FileDeploy.tla: order-free winner, upload/reload decision); TLC MC that sequential selection equals the order-free winner for all listing orders; real Entire generators / PCDeployerJob / pc_diff judged by a TLC trace judge",
         "text": "TLC checks over all generator sequences in bounds that add_entire in listing order yields the highest-priority generator per path. Real Entire generator objects in every listing order go through "
